@@ -6,10 +6,12 @@ import (
 	"errors"
 	"fmt"
 	"sort"
+	"sync/atomic"
 	"testing"
 	"time"
 
 	"github.com/relab/gorums"
+	"github.com/relab/gorums/ordering"
 	"google.golang.org/protobuf/proto"
 	"pgregory.net/rapid"
 
@@ -37,7 +39,18 @@ type Step struct {
 	Level int    `json:"level,omitempty"`
 }
 
+// Hostile is the second case shape: server 0 is a raw grpc server that answers the subject
+// call (a server-stream correctable on all nodes) with the frames listed: "good" (a well-formed
+// reply) or "foreign" (a reply that names another method; the library turns it into an error
+// of that node). The other nodes are healthy and silent. Until they have failed too the call
+// must not complete, whatever node 0 sends and however often.
+type Hostile struct {
+	Frames []string `json:"frames"`
+	Kind   string   `json:"kind"`
+}
+
 type Case struct {
+	Hostile *Hostile `json:"hostile,omitempty"`
 	N     int                `json:"n"`
 	Mgr   scen.MgrOpts       `json:"mgr"`
 	Cfg   []int              `json:"cfg"`
@@ -48,7 +61,127 @@ type Case struct {
 
 var corrKinds = []string{"Corr", "CorrPerNode", "CorrCustom", "CorrCombo", "CorrStream", "CorrStreamPerNode", "CorrStreamCustom", "CorrStreamCombo"}
 
+func genHostile(t *rapid.T) Case {
+	c := Case{N: rapid.IntRange(2, 3).Draw(t, "n"), Mgr: qeng.GenMgr(t, false)}
+	h := &Hostile{Kind: rapid.SampledFrom([]string{"CorrStream", "CorrStreamCustom", "CorrStreamPerNode", "CorrStreamCombo"}).Draw(t, "kind")}
+	k := rapid.IntRange(1, 5).Draw(t, "nframes")
+	for i := 0; i < k; i++ {
+		h.Frames = append(h.Frames, rapid.SampledFrom([]string{"good", "foreign", "foreign"}).Draw(t, fmt.Sprintf("frame%d", i)))
+	}
+	c.Hostile = h
+	return c
+}
+
+// runHostile: see Hostile.
+func runHostile(c Case) vt.Verdict {
+	h := c.Hostile
+	cl := scen.NewCluster(c.N, 0)
+	defer cl.Shutdown()
+	var first int32
+	sent := make(chan struct{})
+	srv := scen.StartHostileServer(cl, func(n int32, req *gorums.Message) [][]byte {
+		if req.Metadata.GetMethod() == "puppet.Puppet.RPC" || !atomic.CompareAndSwapInt32(&first, 0, 1) {
+			return nil // probes and later requests: a well-formed reply
+		}
+		var tok uint64
+		if r, ok := req.Message.(*puppet.Req); ok {
+			tok = r.GetToken()
+		}
+		var out [][]byte
+		for _, f := range h.Frames {
+			method := req.Metadata.GetMethod()
+			if f == "foreign" {
+				method = "puppet.Puppet.QC"
+			}
+			b, err := gorums.NewCodec().Marshal(&gorums.Message{Metadata: &ordering.Metadata{MessageID: req.Metadata.GetMessageID(), Method: method}, Message: &puppet.Rep{Token: tok, Level: 1}})
+			if err == nil {
+				out = append(out, b)
+			}
+		}
+		time.AfterFunc(20*time.Millisecond, func() { close(sent) })
+		return out
+	})
+	defer srv.Stop()
+	for i := 1; i < c.N; i++ {
+		cl.Start(i)
+	}
+	client, err := scen.NewClient(cl, c.Mgr)
+	if err != nil {
+		return vt.Verdict{OK: true, Inconclusive: true, Msg: err.Error(), Classes: []string{"setup-error"}}
+	}
+	defer func() {
+		cl.OpenAll()
+		for _, call := range client.Calls() {
+			call.Cancel()
+		}
+		client.Close(scen.B)
+	}()
+	tok := scen.NewTokens(1)
+	spec := scen.CallSpec{Kind: h.Kind, Ctx: "cancel", Script: scen.QScript{Kind: "threshold", Q: 1000}}
+	call := client.NewCall(0, tok, 1, spec)
+	for s := 1; s < c.N; s++ {
+		cl.SetBehaviour(s, tok, scen.Behaviour{Stream: []scen.StreamItem{{Level: 1, Gate: true}}, EndGate: true})
+	}
+	call.Issue()
+	if call.Corr == nil || call.Raw == nil {
+		return vt.Fail("C11/corrstream/no-correctable", "the stub returned no correctable object")
+	}
+	select {
+	case <-sent:
+	case <-time.After(scen.B):
+		return vt.Verdict{OK: true, Inconclusive: true, Msg: "the request did not reach the raw server"}
+	}
+	// every healthy node has the request but has said nothing yet
+	if !cl.Log.WaitFor(scen.B, func(evs []scen.Event) bool {
+		return scen.Count(evs, func(e scen.Event) bool { return e.Kind == "enter" && e.Token == tok }) >= c.N-1
+	}) {
+		return vt.Verdict{OK: true, Inconclusive: true, Msg: "the request did not reach the healthy servers"}
+	}
+	time.Sleep(5 * time.Millisecond)
+	nforeign := 0
+	for _, f := range h.Frames {
+		if f == "foreign" {
+			nforeign++
+		}
+	}
+	classes := []string{"hostile-node", fmt.Sprintf("foreign-replies=%d", nforeign), "kind=" + h.Kind}
+	if isClosed(call.Raw.Done()) {
+		_, _, err := call.Raw.Get()
+		return vt.Verdict{OK: false, Key: "C11/corrstream/completed-early/hostile-node", History: cl.Log.Snapshot(), Classes: classes,
+			Msg: fmt.Sprintf("%s on %d nodes completed (error: %v) after node 0 had answered with %v although the quorum function never reported done, the context is live and the other %d nodes have neither failed nor answered", h.Kind, c.N, err, h.Frames, c.N-1)}
+	}
+	// the healthy nodes fail: if node 0 has failed too (a reply that named another method), every node has failed
+	for s := 1; s < c.N; s++ {
+		cl.Stop(s)
+	}
+	if nforeign > 0 {
+		r, sig := scen.Await(call.Raw.Done(), scen.B)
+		if r == scen.Hung {
+			return vt.Verdict{OK: false, Key: "C11/corrstream/not-completed/hostile-node/" + sig, History: cl.Log.Snapshot(), Classes: classes,
+				Msg: fmt.Sprintf("%s on %d nodes: node 0 answered with %v and the other nodes' servers were stopped - every node has failed - but the call did not complete within 2x%v: %s", h.Kind, c.N, h.Frames, scen.B, sig)}
+		}
+		if r == scen.Late {
+			return vt.Verdict{OK: true, Inconclusive: true, Msg: "completed late", Classes: classes}
+		}
+		if _, _, err := call.Raw.Get(); !errors.Is(err, gorums.Incomplete) {
+			return vt.Verdict{OK: false, Key: "C11/corrstream/wrong-completion/hostile-node", History: cl.Log.Snapshot(), Classes: classes,
+				Msg: fmt.Sprintf("%s: every node has failed, the call must end Incomplete, got %v", h.Kind, err)}
+		}
+	} else {
+		time.Sleep(5 * time.Millisecond)
+		if isClosed(call.Raw.Done()) {
+			_, _, err := call.Raw.Get()
+			return vt.Verdict{OK: false, Key: "C11/corrstream/completed-early/hostile-node", History: cl.Log.Snapshot(), Classes: classes,
+				Msg: fmt.Sprintf("%s on %d nodes completed (error: %v) although node 0 has only replied (%v) and has not failed", h.Kind, c.N, err, h.Frames)}
+		}
+	}
+	return vt.Pass(nforeign >= 1, classes...)
+}
+
 func gen(t *rapid.T) Case {
+	if rapid.IntRange(0, 11).Draw(t, "shape") == 0 {
+		return genHostile(t)
+	}
 	n := rapid.IntRange(1, 5).Draw(t, "n")
 	c := Case{N: n, Mgr: qeng.GenMgr(t, false), Nodes: map[int]NodeScript{}}
 	size := rapid.IntRange(1, n).Draw(t, "cfgSize")
@@ -278,6 +411,9 @@ type watcher struct {
 }
 
 func run(c Case) vt.Verdict {
+	if c.Hostile != nil {
+		return runHostile(c)
+	}
 	kind := c.Call.Kind
 	stream := scen.IsStream(kind)
 	fam := "corr"
